@@ -1100,6 +1100,28 @@ def m2_particles(ctx: Any, prog: Program) -> None:
         if isinstance(e, ast.Call) and isinstance(e.func, ast.Attribute) and e.func.attr == 'casefold' and isinstance(e.func.value, ast.Attribute):
             return e.func.value.attr
         return None
+    # order of children: Particle.parse returns them in the order of the `children` element array, so export has to append them in list order -
+    # every append of a child element sits directly in ONE `for child in <part>.children` loop, not under a test on the child, not in a second pass
+    child_loops = [l for l in ast.walk(exp) if isinstance(l, ast.For) and isinstance(l.iter, ast.Attribute) and l.iter.attr == 'children' and isinstance(l.target, ast.Name)]
+    child_appends = [c for c in ast.walk(exp) if isinstance(c, ast.Call) and isinstance(c.func, ast.Attribute) and c.func.attr == 'append' and c.args
+                     and isinstance(c.args[0], ast.Subscript) and isinstance(c.args[0].ctx, ast.Load) and any(isinstance(x, ast.Name) for x in ast.walk(c.args[0].slice))
+                     and dotted(c.args[0].value) in {dotted(n.value) for n in ast.walk(exp) if isinstance(n, ast.Subscript) and isinstance(n.ctx, ast.Store)}]
+    ctx.shape('C20.M2', len(child_loops) >= 1 and len(child_appends) >= 1, mod, exp, 'Particle.export appends child elements looked up by name inside a loop over <part>.children', func='Particle.export', text='particle children in list order')
+    for ca in child_appends:
+        loop_ = None
+        cond_ = None
+        p_ = mod.parents.get(ca)
+        while p_ is not None and p_ is not exp:
+            if isinstance(p_, ast.If) and cond_ is None:
+                cond_ = p_
+            if isinstance(p_, ast.For):
+                loop_ = p_
+                break
+            p_ = mod.parents.get(p_)
+        in_child_loop = loop_ in child_loops
+        ctx.check('C20.M2', in_child_loop and cond_ is None, mod, ca, 'Particle.export appends a child element ' + ('under a test on the child' if in_child_loop else 'outside the loop over the system\'s children (a second pass)') +
+                  ': children that take different routes are appended at different times, so a system whose child list has a later-defined child before an earlier-defined one is written - and read back - in another order',
+                  func='Particle.export', text='particle children in list order')
     child_ctor = any(isinstance(c, ast.Call) and dotted(c.func) == 'Child' and c.args and isinstance(c.args[0], ast.Attribute) and c.args[0].attr == 'name' for c in ast.walk(par))
     maps_store = {dotted(n.value) for n in ast.walk(exp) if isinstance(n, ast.Subscript) and isinstance(n.ctx, ast.Store) and _folded_attr(n.slice) == 'name'}
     maps_load = {dotted(n.value) for n in ast.walk(exp) if isinstance(n, ast.Subscript) and isinstance(n.ctx, ast.Load) and _folded_attr(n.slice) == 'particle'}
@@ -1147,6 +1169,39 @@ def m2_smd(ctx: Any, prog: Program) -> None:
         ctx.check('C20.M2', ok, mod, nb, f'`{b.decode()[:20]}` is written directly after `{a.decode()[-20:]}` on the same line without whitespace: the two fields fuse into one token', func='Mesh.export', text=f'smd fields separated: {b.decode()[:15]!r} after {a.decode()[-12:]!r}')
     if n_join < 2:
         raise AnalysisError('Mesh.export: same-line write sequences not found')
+    # the reader invents a link (to the vertex's parent bone) only for a vertex that has none: the writer emits explicit link lists as they
+    # are, also when their weights do not add up to one, so any other synthesised link comes back as an extra entry
+    tri = mod.func('Mesh._parse_smd_tri')
+    vctor = [c for c in ast.walk(tri) if isinstance(c, ast.Call) and dotted(c.func) == 'Vertex' and c.args and isinstance(c.args[-1], ast.Name)]
+    ctx.shape('C20.M2', len(vctor) == 1 and isinstance(vctor[0].args[-1], ast.Name), mod, tri, '_parse_smd_tri builds Vertex(..., <links local>)', func='Mesh._parse_smd_tri', text='smd synthesised link only without links')
+    if len(vctor) == 1 and isinstance(vctor[0].args[-1], ast.Name):
+        lv = vctor[0].args[-1].id
+        raw_bones = {t.id for a in ast.walk(tri) if isinstance(a, ast.Assign) and isinstance(a.value, ast.Subscript) and any(isinstance(x, ast.Name) and 'raw' in x.id for x in ast.walk(a.value.slice))
+                     for t in a.targets if isinstance(t, ast.Name)}
+        n_syn = 0
+        for a in ast.walk(tri):
+            synth = None
+            if isinstance(a, ast.Assign) and any(dotted(t) == lv for t in a.targets) and isinstance(a.value, ast.List) and a.value.elts:
+                synth = a.value.elts[0]
+            if isinstance(a, ast.Call) and isinstance(a.func, ast.Attribute) and a.func.attr in ('append', 'insert') and dotted(a.func.value) == lv and a.args:
+                synth = a.args[-1]
+            if not (isinstance(synth, ast.Tuple) and len(synth.elts) == 2 and isinstance(synth.elts[0], ast.Name)) or synth.elts[0].id in raw_bones:
+                continue
+            # a link whose bone does not come from the link list on the line
+            n_syn += 1
+            g_ = mod.parents.get(a)
+            while g_ is not None and not isinstance(g_, ast.If):
+                g_ = mod.parents.get(g_)
+            ok_ = False
+            if isinstance(g_, ast.If):
+                t_ = g_.test
+                in_body = any(a is x for st in g_.body for x in ast.walk(st))
+                empty_links = isinstance(t_, ast.UnaryOp) and isinstance(t_.op, ast.Not) and dotted(t_.operand) == lv
+                no_list = not in_body and isinstance(t_, ast.Name)                 # else-arm of `if links_raw:`
+                ok_ = (in_body and empty_links) or no_list
+            ctx.check('C20.M2', ok_, mod, a, f'_parse_smd_tri adds the link `{U(synth)[:40]}` under `{U(g_.test)[:40] if isinstance(g_, ast.If) else "-"}`: a vertex written with explicit links (whatever their sum) comes back '
+                      'with one link more', func='Mesh._parse_smd_tri', text='smd synthesised link only without links')
+        ctx.shape('C20.M2', n_syn >= 2, mod, tri, f'fallback links to the parent bone found: {n_syn} (no link list / empty link list confirmed by hand)', func='Mesh._parse_smd_tri', text='smd fallback links census')
     # field counts per line
     src = U(exp)
     psrc = U(mod.func('Mesh._parse_smd_anim')) + U(mod.func('Mesh._parse_smd_tri')) + U(mod.func('Mesh._parse_smd_bones'))
@@ -1241,6 +1296,8 @@ def m5_tables(ctx: Any, prog: Program) -> None:
 
 
 MUTANTS: List[Dict[str, Any]] = [
+    {'id': 'smd_remainder_link_added', 'file': 'smd.py', 'find': "                    if not links:\n                        # Okay, there's no links set here, use the first index.\n                        links = [(parent, 1.0)]\n", 'replace': "                    remainder = 1.0 - sum(weight for bone, weight in links)\n                    if remainder > 1e-4:\n                        links.append((parent, remainder))\n", 'expect': 'C20.M2'},
+    {'id': 'particle_children_two_routes', 'file': 'particles.py', 'find': "            for child in part.children:\n                child_attr.append(name_to_elem[child.particle.casefold()])\n", 'replace': "            for child in part.children:\n                if child.particle.casefold() in name_to_elem:\n                    child_attr.append(name_to_elem[child.particle.casefold()])\n", 'expect': 'C20.M2'},
     {'id': 'ok_scenes_sort_short_lambda', 'file': 'choreo.py', 'find': "    scene_list.sort(key=lambda entry: entry.checksum)\n", 'replace': "    scene_list.sort(key=lambda e: e.checksum)\n", 'expect': None},
     {'id': 'scenes_sort_descending', 'file': 'choreo.py', 'find': "    scene_list.sort(key=lambda entry: entry.checksum)\n", 'replace': "    scene_list.sort(key=lambda entry: entry.checksum, reverse=True)\n", 'expect': 'C20.M4'},
     {'id': 'scenes_sort_by_filename', 'file': 'choreo.py', 'find': "    scene_list.sort(key=lambda entry: entry.checksum)\n", 'replace': "    scene_list.sort(key=lambda entry: entry.filename)\n", 'expect': 'C20.M4'},
